@@ -52,3 +52,21 @@ Theorem C03_machine_step_preserves_meaning : forall e s,
   end.
 Proof. exact step1_ok. Qed.
 Print Assumptions C03_machine_step_preserves_meaning.
+
+(* ... and in both directions once the one intended difference is removed: the
+   sequential semantics treats a wait on a condition variable as a no-op, the
+   machine releases the lock, lets other threads move and re-acquires it.
+   step1s / mrun_seq is the machine with a fully applied condWait /
+   condWaitTimeout executed like every other library function (the two
+   machines differ nowhere else: C03_where_the_machines_differ).  Then the
+   machine on one thread and the evaluator compute exactly the same results. *)
+Theorem C03_sequential_machine_iff_evaluator : forall e s v s',
+  (exists k, mrun_seq k e s = Some (v, s')) <-> (exists n, eval n e s = RVal v s').
+Proof. exact seq_machine_iff_eval. Qed.
+Print Assumptions C03_sequential_machine_iff_evaluator.
+
+Theorem C03_where_the_machines_differ : forall vf va s,
+  apply_seq vf va s <> apply_step vf va s ->
+  exists p args, vf = PrimV p args /\ waits p = true /\ Nat.ltb (length (args ++ [va])) (arity p) = false.
+Proof. exact apply_seq_differs. Qed.
+Print Assumptions C03_where_the_machines_differ.
